@@ -32,15 +32,22 @@ vars == <<c, pc, done, live, recorded, hits, fired, surfaced, bodyOK, inspected,
 
 \* trunc: the multipart body ends in the middle of the content of its last file part (client abort);
 \* the part read so far is stored and its temporary file must be cleaned up like any other
+\* entry: the body is handed over as a slice (WriteRequestBody), or through ReadRequestBodyFrom by a reader that
+\* announces its length ("known") or does not ("unknown").  limit = "reached": the body is as large as the request
+\* body limit under ProcessPartial, so the write itself stores the first limit bytes and runs the body phase.
 Cases == [spill : BOOLEAN, nfiles : 0..MaxFiles, keep : {"Off", "On", "RelevantOnly"}, relevant : BOOLEAN,
-          point : Points, nth : 1..2, steps : 1..3, trunc : BOOLEAN]
+          point : Points, nth : 1..2, steps : 1..3, trunc : BOOLEAN,
+          entry : {"slice", "known", "unknown"}, limit : {"far", "reached"}]
 
 Init ==
   /\ c \in {x \in Cases : /\ (x.point = "none" => x.nth = 1)
                           /\ (x.trunc => x.nfiles >= 1 /\ x.point = "none")
                           /\ (x.point \in {"body.createtemp", "body.spillcopy", "body.write", "body.readat", "body.close", "body.remove"} => x.spill /\ x.nth = 1)
                           /\ (x.point \in {"mp.createtemp", "mp.copy", "tx.remove"} => x.nfiles >= x.nth)
-                          /\ (x.keep # "RelevantOnly" => ~x.relevant)}
+                          /\ (x.keep # "RelevantOnly" => ~x.relevant)
+                          /\ (x.limit = "reached" => x.nfiles = 0 /\ ~x.trunc /\ x.spill /\ x.keep = "Off"
+                                                     /\ x.point \in {"none", "body.createtemp", "body.spillcopy", "body.write"})
+                          /\ (x.entry # "slice" => x.keep = "Off" /\ ~x.trunc)}
   /\ pc = "write" /\ done = 0 /\ live = {} /\ recorded = {} /\ hits = 0 /\ fired = FALSE
   /\ surfaced = FALSE /\ bodyOK = FALSE /\ inspected = FALSE /\ closeErr = FALSE /\ removeFailed = {}
 
